@@ -114,6 +114,8 @@ def bounds(tier: str, params: Any) -> dict:
     if params[4] == "bytes":
         return {"M": 0, "S": 1, "R": 0}
     if tier == "quick":
+        if params[0] == "trio" and params[4] == "whole":
+            return {"M": 0, "S": 1, "R": 2}  # trio's own scheduling freedom, on the unsplit pipeline
         return {"M": 1, "S": 2, "R": 0}
     return {"M": 2, "S": 3, "R": 1 if params[0] == "trio" else 0}
 
@@ -215,7 +217,9 @@ def oracle(w: Any, params: Any) -> List[dict]:
         k = kind if n == 0 else "after"
         if k in ("after", "gated") and all_fed and settled and n + 1 < len(pl):
             resp_ok = n < len(cl.responses) and cl.responses[n]["complete"]
-            if resp_ok and len(insts) <= n + 1 and rec.closed_at is None:
+            last_fed = max((t for t, e in w.driver.fired if e[0] == "data"), default=0.0)
+            if resp_ok and len(insts) <= n + 1 and (rec.closed_at is None or last_fed < rec.closed_at):
+                # every byte of the next request was there (strictly before any close) and nobody served it
                 out.append(V("not-reused", short, f"{tag}: request {n + 1} never served on a reusable connection"))
             # (a close after virtual time has passed is the keep-alive timer doing its job, judged by C07)
             if resp_ok and rec.closed_at is not None and rec.closed_at == 0.0 and len(insts) <= n + 1:
